@@ -186,6 +186,34 @@ def run(ctx: Ctx, rep: Report, tier: str) -> None:  # noqa: C901
     for f in reseq:
         _traversal(ctx, rep, f)
 
+    # ---------------------------------------------------------------- R10.5 the number written is the number stored
+    rep.rule("R10.5")
+    setters = []
+    for f in reseq:
+        for e in ctx.cg.all_edges(f):
+            if e.kind == "setter" and isinstance(e.target, Func) and e.target.name == "sequence" and e.target not in setters:
+                setters.append(e.target)
+    rep.instance(len(setters))
+    rep.floor(2, "sequence setters reached from resequence")
+    for st in setters:
+        prm = st.params[1]
+        ok = True
+        for p in function_paths(ctx.cfg(st)):
+            if p.raises:
+                continue
+            stored = None
+            for node, lab in p.nodes:
+                if node.kind == "stmt" and isinstance(node.ast, ast.Assign):
+                    for t in node.ast.targets:
+                        if isinstance(t, ast.Attribute) and src(t.value) == "self" and t.attr == "_sequence":
+                            stored = node.ast.value
+            if stored is None or not mentions(deep_resolve(stored, p.env), prm):
+                ok = False
+                atoms = "; ".join(f"{snippet(t, 30)}={'T' if tr else 'F'}" for t, tr in p.atoms) or "unconditional"
+                rep.violation(st.qualname, f"path [{atoms}] stores {snippet(stored) if stored is not None else 'nothing'}", "a normally returning path of the sequence setter does not store the number it was given: resequencing leaves this entry with another number", where(st), inp="AddrGroup(...ios subnet members...).resequence(10, 10)")
+        if ok:
+            rep.ok(st.qualname, f"every normal path stores a value derived from `{prm}`", where=where(st))
+
 
 def _before(cfg, g: ast.If, cn: Node) -> bool:
     gn = None
